@@ -116,7 +116,7 @@ class _SubScratch:
 def coverage_run(sub: _SubScratch):
     """Small instances with -coverage: every action of the machine must fire (vacuity guard for the big runs, which
     run without -coverage because it costs 2-3x)."""
-    c = Chunk("session", 1, 2, "any", True)
+    c = Chunk("single", 1, 1, "any", True)
     r = run_tlc(sub, "Transport", design_cfg(c, "as_is", False, HOLDING, HOLDING_PROPS), coverage=True, allow_violation=True, workers=4)
     return "Transport[as_is,coverage," + c.label + "]", r, {"variant": "as_is", "chunk": c.label}, "coverage"
 
